@@ -45,6 +45,11 @@ NextC == UNCHANGED <<dummy, dummy2>> /\ tv.op = "seedq" /\ LET q == tv.q IN
    \/ \E decl \in Angles, incl \in Incls, gs \in {"ok", "half", "double"} :
         tv' = [op |-> "init", q |-> q, decl |-> decl, incl |-> incl, gscale |-> gs,
                gdir |-> RtVec(q, <<0, 0, -1>>), bb |-> RtVec(q, Bn(decl, incl)), bn |-> Bn(decl, incl), N |-> QNorm(q)]
+   (* degenerate measurements: the attitude is not determined (field parallel / anti-parallel to
+      gravity, zero field, zero gravity) -> the only admissible outcome is a non-zero error code *)
+   \/ \E decl \in {<<1,0,1>>, <<4,3,5>>}, deg \in {"field_up", "field_down", "zero_field", "zero_gravity"} :
+        tv' = [op |-> "init_degenerate", q |-> q, decl |-> decl, deg |-> deg,
+               gdir |-> RtVec(q, <<0, 0, -1>>), N |-> QNorm(q)]
    \/ \E b \in Biases, h \in HSteps, dt \in Dts, W \in {"W0", "small"} :
         tv' = [op |-> "predict", q |-> q, b |-> b, h |-> h, dt |-> dt, W |-> W, post |-> QRed(QMul(q, h)),
                cell |-> IF QMul(q, h)[1] < 0 THEN "shadow" ELSE "noshadow"]
